@@ -30,6 +30,7 @@ finding; else it is a generic repeatability / hidden-state finding.
 """
 import contextlib
 import copy
+import hashlib
 import io
 import json
 import warnings
@@ -41,7 +42,7 @@ from hvsrpy import TimeSeries, SeismicRecording3C
 
 from hvmc import alphabets as A
 from hvmc.engine import explorer
-from hvmc.engine.core import arr_digest, digest, jsonable
+from hvmc.engine.core import digest, jsonable
 
 PROPERTY = "C09"
 
@@ -191,8 +192,33 @@ def run_process(recs, s):
 # ---------------------------------------------------------------------------
 # deep snapshots
 
+def _np_default(x):
+    if isinstance(x, np.ndarray):
+        return x.tolist()
+    if isinstance(x, np.generic):
+        return x.item()
+    if isinstance(x, (set, frozenset)):
+        return sorted(x)
+    return repr(x)
+
+
 def _meta_json(meta):
-    return json.dumps(jsonable(meta), sort_keys=True)
+    """Canonical JSON text of a metadata dict (tuples and lists are the same content)."""
+    try:
+        return json.dumps(meta, sort_keys=True, default=_np_default)
+    except (TypeError, ValueError):
+        return json.dumps(jsonable(meta), sort_keys=True)
+
+
+def arr_digest(*arrays):
+    """Digest of dtype, shape and bytes of every array (local, faster variant of core.arr_digest)."""
+    h = hashlib.blake2b(digest_size=10)
+    for a in arrays:
+        a = np.asarray(a)
+        h.update(a.dtype.str.encode())
+        h.update(repr(a.shape).encode())
+        h.update(a.tobytes())
+    return h.hexdigest()
 
 
 def snap_recordings(recs):
@@ -373,6 +399,9 @@ class Holder:
         return new
 
 
+_REF_CACHE = {}
+
+
 class System:
     def __init__(self, root, ctx):
         self.root = root
@@ -397,7 +426,7 @@ class System:
         self.depth = root["depth"]
         self.probing = False
         self.judged = set()
-        self.ref_cache = {}
+        self.ref_cache = _REF_CACHE         # memo of a pure function of its key; shared by the roots of a worker
         self.intended_cache = {}
 
     # ---- E1 interface -------------------------------------------------------
@@ -451,7 +480,7 @@ class System:
             out = None
         h.hist = h.hist + (op,)
         self._results_unchanged(h, op, ctx)
-        if not muted and op["op"] != "P" and len(h.hist) >= self.depth:
+        if not muted and op["op"] != "P" and len(h.hist) >= self.depth and self.depth <= 2:
             self._leaf_probe(h, op, ctx)
         return out
 
@@ -484,7 +513,7 @@ class System:
 
     def _reference(self, op, ms, mr, n_used, ctx):
         """The same call on pristine objects asked for the FFT length the judged call used."""
-        k = (op["kind"], op["w"], tuple(ms), tuple(mr), n_used)
+        k = (self.nrec, op["kind"], op["w"], tuple(ms), tuple(mr), n_used, self.fft if n_used is None else None)
         if k in self.ref_cache:
             ctx.count("fresh_reference_reused")
             return self.ref_cache[k]
@@ -737,7 +766,7 @@ def roots(tier, seed):
         add(2, fft, 3, KINDS_QUICK, WIDTHS, MR_QUICK, ["last", "first"])
         for nrec in (1, 3):
             add(nrec, fft, 2, KINDS_ALL, WIDTHS, MR_ALL, ["last", "first"])
-    for nrec in (1, 3):
+    for nrec in (1, 2, 3):
         for fft in FFT_REQUESTS:
             add(nrec, fft, 3, ["psd_raw"], WIDTHS, MR_QUICK, ["last"])
     return out
@@ -780,17 +809,20 @@ def describe(tier):
              "azimuth, fft n; in-place edits of a recording: sample, metadata entry, nested metadata list "
              "(thorough: also last recording's sample, orient_sensor_to)}; every process() transition is judged "
              "(inputs unchanged, fresh-state differential, immediate repeat on a clone, repeat along the history) "
-             "and after every operation all earlier results are re-read; states are the complete observable state "
-             "(recordings + settings + all results); non-trivial/distinct = root",
+             "and after every operation all earlier results are re-read; an edit at the depth bound of a depth-2 "
+             "root is followed by one more process() on a clone (leaf probe); states are the complete observable "
+             "state (recordings + settings + all results); non-trivial/distinct = root",
         bounds=dict(depth="2 quick; thorough 3 for the unpadded request (all kinds) and for 2 recordings with the "
                           "padded requests (8 kinds), 2 otherwise",
                     recordings="1-3 x 64 samples, dt 0.01", tukey_widths=WIDTHS,
-                    fft_requests=list(FFT_REQUESTS), kinds=KINDS_QUICK if tier == "quick" else KINDS_ALL + ["psd_raw"]),
+                    fft_requests=list(FFT_REQUESTS),
+                    kinds=(KINDS_QUICK if tier == "quick" else KINDS_ALL) + ["psd_raw (own roots)"],
+                    determinism_replays="thorough, roots of depth 2"),
         exhaustive=True,
         assumptions=["results are compared bit for bit (the same code path runs twice)",
                      "the fresh-state reference is asked for the FFT length the judged call resolved ({'n': None} "
-                     "when it equals the window length, {'n': n} otherwise) and is memoised per (kind, width, "
-                     "settings edits, recording edits, n) inside a root",
+                     "when it equals the window length, {'n': n} otherwise) and is memoised per (number of "
+                     "recordings, kind, width, settings edits, recording edits, n) inside a worker process",
                      "a result difference between two calls that saw different recordings is attributed to the "
                      "inputs-modified finding reported at the call that changed them, not reported again",
                      "all recordings of a root have the same length and time step; alias method names and "
